@@ -5,6 +5,7 @@ import (
 	"bytes"
 	"encoding/json"
 	"fmt"
+	"io"
 	"os"
 	"strings"
 	"sync"
@@ -285,7 +286,7 @@ func skeletonTexts(c *layoutCase, cache map[string]string) {
 		return
 	}
 	if c.sk.Syntax == "none" {
-		cache[c.Skel] = extras
+		cache[c.Skel] = handWritten[c.Skel]
 		return
 	}
 	cache[c.Skel] = featgen.Render(&featgen.Case{Syntax: c.sk.Syntax, Features: c.sk.Features})[featgen.Main]
@@ -355,4 +356,19 @@ func runC11(in *bufio.Scanner, out *sink) error {
 	b, _ := json.Marshal(st)
 	fmt.Fprintf(os.Stderr, "STATS %s\n", b)
 	return rerr
+}
+
+func runParse(w *bufio.Writer) error {
+	data, err := io.ReadAll(os.Stdin)
+	if err != nil {
+		return err
+	}
+	file, err := parser.Parse("main.proto", bytes.NewReader(data), reporter.NewHandler(nil))
+	if err != nil {
+		fmt.Fprintf(w, "REJECTED: %v\n", err)
+		return nil
+	}
+	got, _, _ := printAST(file)
+	fmt.Fprintf(w, "accepted; round trip equal: %v\n", got == string(bytes.TrimPrefix(data, []byte("\xEF\xBB\xBF"))))
+	return nil
 }
